@@ -11,7 +11,8 @@ CONSTANTS MCShapes,    \* set of sets of paths (tree shapes)
           MCFlags,     \* set of [recursive, dry, always, kernel, reap]
           MCPlugins,
           MCAttrs,     \* per-node attribute choices
-          MaxTicksK, TimeoutsK, MaxOpens, EnvEdits
+          MaxTicksK, TimeoutsK, MaxOpens, EnvEdits,
+          MidRun       \* "no" | "cand" | "any": a cgroup may empty in the middle of a run ("cand": the candidate in hand)
 
 VARIABLES mcPids,      \* path -> pids currently listed in cgroup.procs (environment)
           mcInv, mcOpens, mcTimeout, mcRan
@@ -114,8 +115,16 @@ MCAttempt ==
   \/ (CtlFreeze(att.victim, "1") \/ CtlKill(att.victim, "1")) /\ UNCHANGED mcv
   \/ Kmsg(att.victim, kcfg.plugin, att.dry) /\ UNCHANGED mcv
 
+\* inside a run: the last process of one cgroup exits (at most one such event per tick)
+MCEmpty ==
+  /\ MidRun # "no" /\ stale = {} /\ kph \in {"dfs", "attempt", "fired", "polled"}
+  \* who is addressed: the candidate being looked at or attempted (MidRun = "any": any cgroup)
+  /\ \E n \in kw : n.pop /\ (MidRun = "any" \/ (kph = "attempt" /\ n.path = att.victim) \/ (kph # "attempt" /\ stack # <<>> /\ n.path = Top.path))
+               /\ KEmpty(n.path) /\ mcPids' = [p \in DOMAIN mcPids |-> IF p = n.path THEN {} ELSE mcPids[p]]
+  /\ UNCHANGED <<mcInv, mcOpens, mcTimeout, mcRan>>
+
 MCNext ==
-  \/ MCStart \/ MCEnv \/ MCRun \/ MCHook \/ MCAttempt
+  \/ MCStart \/ MCEmpty \/ MCEnv \/ MCRun \/ MCHook \/ MCAttempt
   \/ (KSilent /\ IF kph' = "attempt" THEN mcOpens' = 0 /\ UNCHANGED <<mcPids, mcInv, mcTimeout, mcRan>> ELSE UNCHANGED mcv)
   \/ (KRet(kret) /\ UNCHANGED mcv)
 
@@ -131,6 +140,8 @@ Wit ==
   (IF \E i \in DOMAIN khist : khist[i].kind = "attempt" /\ khist[i].nr = 0 /\ i < Len(khist) THEN {"FellBackAfterFailure"} ELSE {}) \cup
   (IF \E i \in DOMAIN khist : khist[i].kind = "gone" THEN {"VictimGoneDuringHook"} ELSE {}) \cup
   (IF hk.has THEN {"HookOutstanding"} ELSE {}) \cup
+  (IF kph = "attempt" /\ att.victim \in stale THEN {"AttemptOnJustEmptied"} ELSE {}) \cup
+  (IF kph = "attempt" /\ att.stage = "kkill" /\ ~Node(att.victim).pop THEN {"KernelKillSeesEmptied"} ELSE {}) \cup
   (IF kph = "resumed" /\ PastTimeout THEN {"HookTimedOut"} ELSE {}) \cup
   (IF \E i, j \in DOMAIN khist : i < j /\ khist[i].kind = "fire" /\ khist[j].kind = "fire" THEN {"SecondVictimFiresAgain"} ELSE {}) \cup
   (IF \E e \in keff : e.kind = "reap" THEN {"Reaped"} ELSE {}) \cup
